@@ -154,29 +154,37 @@ Definition apply_track (st : ust) (frame : list N) (sc0 : bool) (r : tres) : ust
     (mkU (fst m) active active srcs', OMerge (if fill then Some frame else None) (snd m))
   end.
 
-Definition handle (c : cfg) (now : N) (st : ust) (p : pkt) : ust * outcome :=
-  if negb (p_vec p =? DMP_SET_PROPERTY_VECTOR) then (st, OIgnore)
-  else if (p_preview p && c_ignore_preview c)%bool then (st, OIgnore)
-  else if negb (p_univ p =? c_univ c) then (st, OIgnore)
-  else if negb (dmp_header_ok (p_dmph p)) then (st, OIgnore)
-  else if SACN_MAX_PRIORITY <? p_prio p then (st, OIgnore)
+(* the checks of HandlePDUData before TrackSourceIfRequired: None = packet ignored; otherwise the
+   frame that would be copied and whether start_code == 0 *)
+Definition classify (c : cfg) (p : pkt) : option (list N * bool) :=
+  if negb (p_vec p =? DMP_SET_PROPERTY_VECTOR) then None
+  else if (p_preview p && c_ignore_preview c)%bool then None
+  else if negb (p_univ p =? c_univ c) then None
+  else if negb (dmp_header_ok (p_dmph p)) then None
+  else if SACN_MAX_PRIORITY <? p_prio p then None
   else match decode_addr (p_pdu p) with
-  | None => (st, OIgnore)
+  | None => None
   | Some (start, incr, number) =>
-    if negb (incr =? 1) then (st, OIgnore)
+    if negb (incr =? 1) then None
     else
       let length_remaining := len (p_pdu p) - 6 in
       let start_code : Z :=
         if p_rev2 p then Z.of_N start
         else if (negb (length_remaining =? 0) && negb (number =? 0))%bool
              then Z.of_N (nth 6 (p_pdu p) 0) else (-1)%Z in
-      if (negb (start_code =? 0)%Z && negb (p_term p))%bool then (st, OIgnore)
+      if (negb (start_code =? 0)%Z && negb (p_term p))%bool then None
       else
         let channels := N.min length_remaining number in
         let frame :=
           if p_rev2 p then dmx_set (drop 6 (p_pdu p)) channels
           else dmx_set (drop 7 (p_pdu p)) (channels - 1) in
-        apply_track st frame (start_code =? 0)%Z (track now p (u_srcs st) (u_active st))
+        Some (frame, (start_code =? 0)%Z)
+  end.
+
+Definition handle (c : cfg) (now : N) (st : ust) (p : pkt) : ust * outcome :=
+  match classify c p with
+  | None => (st, OIgnore)
+  | Some (frame, sc0) => apply_track st frame sc0 (track now p (u_srcs st) (u_active st))
   end.
 
 (* ------------------------------------------------------------------ Art-Net *)
